@@ -40,8 +40,8 @@ def check(run):
         perconstruct[v["eco"]].setdefault(v["construct"], []).append(v["text"])
     # always present: one range per shorthand construct (every arity) and the plain numeric versions in 1-3 part
     # spellings; the remaining places are filled by shape-stratified sampling
-    must_r = {e: [rnd.choice(sorted(ts)) for c, ts in sorted(perconstruct[e].items())] for e in ECOS}
-    fam = vlib.accept_filter(run, exe, {e: ["1", "1.0", "1.0.0", "2", "1.5", "v1.0.0", "0.0.1"] for e in ECOS}, name="fam")
+    must_r = {e: [x for c, ts in sorted(perconstruct[e].items()) for x in (sorted(ts)[0], sorted(ts)[-1], rnd.choice(sorted(ts)))] for e in ECOS}
+    fam = vlib.accept_filter(run, exe, {e: ["1", "1.0", "1.0.0", "2", "1.5", "v1.0.0", "0.0.1", "2.0.0.rc1", "2.0.0-rc1", "1.0.0-beta", "3.0.rc2", "1.0a1", "1.0_rc1", "1.0~rc1", "1!1.0", "1:1.0-1", "1.0.0-alpha.1"] for e in ECOS}, name="fam")
     ch = versgen.chains(run)
     nv, nr = (8, 40) if quick else (14, 120)
     # VERS: the same constraint text under every scheme that accepts its versions (history across schemes)
@@ -54,7 +54,7 @@ def check(run):
     rejs = {e: [t for t, _ in U[e] if t not in set(acc[e])] for e in ECOS}
     base_jobs = []
     for e in ECOS:
-        base_jobs.append({"k": "conc", "eco": e, "versions": list(dict.fromkeys(fam[e][:5] + rnd.sample(longd[e], min(3, len(longd[e]))) + vlib.stratified(acc[e], nv, rnd))),
+        base_jobs.append({"k": "conc", "eco": e, "versions": list(dict.fromkeys(fam[e][:9] + rnd.sample(longd[e], min(3, len(longd[e]))) + vlib.stratified(acc[e], nv, rnd))),
                           "rejects": (sorted(rejs[e], key=lambda t: -len(t))[:2] + rnd.sample(rejs[e], min(3, len(rejs[e])))) + ["1." + "9" * 20, "9" * 20, ""],
                           "ranges": list(dict.fromkeys(must_r[e] + vlib.stratified(rtexts[e] or ["1.0"], nr, rnd))),
                           "versranges": versranges if e in ("npm", "maven") else [], "versprobes": versprobes, "g": 16 if quick else 32,
